@@ -199,6 +199,9 @@ def _site_cases(pred, domains, foreign_decoys):
             for dec in decoys(d):
                 yield {"kind": "site", "pred": pred, "rest": fh + dec, "variant": "foreign-host", "decoy": True}
             yield {"kind": "site", "pred": pred, "rest": "%s@%s/abc" % (d, fh), "variant": "foreign-host", "decoy": "userinfo"}
+            yield {"kind": "site", "pred": pred, "rest": "%s:pw@%s/abc" % (d, fh), "variant": "foreign-host", "decoy": "userinfo"}
+            yield {"kind": "site", "pred": pred, "rest": "%s:%s@%s" % (d, d, fh), "variant": "foreign-host", "decoy": "userinfo"}
+            yield {"kind": "site", "pred": pred, "rest": "%s:8080@%s/" % (d, fh), "variant": "foreign-host", "decoy": "userinfo"}
             yield {"kind": "site", "pred": pred, "rest": "u:p@%s/@%s" % (fh, d), "variant": "foreign-host", "decoy": True}
 
 
@@ -240,8 +243,9 @@ def _enum_lists(acc, shard, nshards, seed, tier):
                 for dec in (decoys(d) if full else decoys(d)[:4]):
                     c = {"kind": "site", "pred": pred, "rest": fh + dec, "variant": "foreign-host", "decoy": True}
                     acc.check(c, True, [pred, "decoy"] if i % 17 == 0 else ())
-            c = {"kind": "site", "pred": pred, "rest": "%s@example.com/abc" % d, "variant": "foreign-host", "decoy": "userinfo"}
-            acc.check(c, True, ())
+            for ui in ("%s@", "%s:pw@", "%s:443@"):
+                c = {"kind": "site", "pred": pred, "rest": (ui % d) + "example.com/abc", "variant": "foreign-host", "decoy": "userinfo"}
+                acc.check(c, True, ())
     # 'l.' hosts with one-token paths
     for j, (h, p) in enumerate(itertools.product(["l.example.com", "l.facebook.com", "L.Example.com", "al.example.com", "l.com", "example.l.com"],
                                                  ["/abc", "/ab", "/abc/", "/abc/d", "/a-c", "/abc.html", "", "/", "/index", "/ABC123?x=1", "/abc#f"])):
@@ -291,7 +295,7 @@ def _strategy(tier):
     glue = st.tuples(st.sampled_from(["", "", "x", "not", "my-"]), host, st.sampled_from(["", "", "x", ".evil.fr"])).map("".join)
     dom = st.sampled_from(["facebook.com", "fb.me", "twitter.com", "x.com", "instagram.com", "t.me", "telegram.org", "youtube.com", "youtu.be", "bit.ly"])
     tail = st.one_of(st.sampled_from(PATHS), dom.flatmap(lambda d: st.sampled_from(decoys(d))))
-    ui = st.one_of(st.just(""), st.just(""), dom.map(lambda d: d + "@"), st.just("user:pw@"))
+    ui = st.one_of(st.just(""), st.just(""), dom.map(lambda d: d + "@"), dom.map(lambda d: d + ":pw@"), dom.map(lambda d: d + ":80@"), st.just("user:pw@"))
     preds = st.sampled_from(list(SITE) + ["is_youtube_url", "is_shortened_url", "should_resolve"])
     return st.tuples(preds, ui, glue, tail, st.sampled_from(["http", "https"])).map(
         lambda v: {"kind": "site", "pred": v[0], "rest": v[1] + v[2] + v[3], "scheme": v[4], "variant": "random", "decoy": "@" in v[3] or "." in v[3] or bool(v[1])})
